@@ -31,4 +31,27 @@ def civilLt (a b : Civil) : Prop :=
   a.y < b.y ∨ (a.y = b.y ∧ (a.m < b.m ∨ (a.m = b.m ∧ (a.d < b.d ∨ (a.d = b.d ∧
     (a.h < b.h ∨ (a.h = b.h ∧ (a.mi < b.mi ∨ (a.mi = b.mi ∧ a.s < b.s)))))))))
 
+/-- `Time::years_from_date`: the same month, day and time of day `years` years away; 29 February becomes
+28 February (also when the target year is a leap year); a leap second is clipped to 59 -/
+def yearsFromDate (years : Int) (c : Civil) : Civil :=
+  ⟨((c.y : Int) + years).toNat, c.m, if c.d = 29 ∧ c.m = 2 then 28 else c.d, c.h, c.mi, min c.s 59⟩
+
+/-- civil time of a Unix timestamp (days-from-civil inverted, Hinnant's algorithm); years 0–9999 -/
+def civilOfUnix (ts : Int) : Option Civil :=
+  let days := ts / 86400
+  let days := if ts % 86400 < 0 then days - 1 else days
+  let secs := (ts - days * 86400).toNat
+  let z := days + 719468
+  let era := (if z ≥ 0 then z else z - 146096) / 146097
+  let doe := (z - era * 146097).toNat
+  let yoe := (doe - doe / 1460 + doe / 36524 - doe / 146096) / 365
+  let y := (yoe : Int) + era * 400
+  let doy := doe - (365 * yoe + yoe / 4 - yoe / 100)
+  let mp := (5 * doy + 2) / 153
+  let d := doy - (153 * mp + 2) / 5 + 1
+  let m := if mp < 10 then mp + 3 else mp - 9
+  let y := if m ≤ 2 then y + 1 else y
+  if y < 0 ∨ y > 9999 then none
+  else some ⟨y.toNat, m, d, secs / 3600, secs / 60 % 60, secs % 60⟩
+
 end Rpki.X509
